@@ -67,9 +67,13 @@ func Drive(in io.Reader, w *bufio.Writer, opts Options) {
 		h.Reset()
 		mutOK, anyErr, open = false, false, false
 	}
+	tag := "" // `#@ <tag>`: the result kind of the next op line is also counted under `<tag>:<kind>`
 	for sc.Scan() {
 		line := sc.Text()
 		if line == "" || strings.HasPrefix(line, "#") {
+			if strings.HasPrefix(line, "#@ ") {
+				tag = line[3:]
+			}
 			continue
 		}
 		f := strings.Split(line, " ")
@@ -100,6 +104,9 @@ func Drive(in io.Reader, w *bufio.Writer, opts Options) {
 				kind = res[:i]
 			}
 			st.Histogram[f[0]+":"+kind]++
+			if tag != "" {
+				st.Histogram[tag+":"+kind]++
+			}
 			if kind == "err" {
 				anyErr = true
 			}
@@ -107,6 +114,7 @@ func Drive(in io.Reader, w *bufio.Writer, opts Options) {
 				mutOK = true
 			}
 		}
+		tag = ""
 	}
 	finish()
 	s.Reset()
